@@ -395,6 +395,20 @@ class ExprEval:
             raise Unsupported("tuple method")
         if isinstance(base, Opaque) and base.tag in ("series", "frame") and name == "values":
             return base.payload
+        if isinstance(base, Opaque) and base.tag in ("series", "frame") and isinstance(base.payload, Arr) and name in ("ndim", "shape", "size"):
+            self.note_assumption("pandas: a frame / series has the ndim, shape and size of the values it holds")
+            if name == "size":
+                out = 1
+                for d_ in base.payload.shape:
+                    out = num_mul(out, d_)
+                return out
+            return base.payload.rank if name == "ndim" else tuple(base.payload.shape)
+        if isinstance(base, Opaque) and base.tag in ("series", "frame") and isinstance(base.payload, Arr) and name == "isna":
+            return FuncRef("lambda0", Opaque("isna", base.payload), name="isna")
+        if isinstance(base, Opaque) and base.tag == "isna" and name == "any":
+            return FuncRef("hasnan", base.payload, name="isna().any")
+        if isinstance(base, Opaque) and base.tag == "isna" and name == "sum":
+            return FuncRef("lambda0", Opaque("any", "isna().sum()"), name="isna().sum")
         if isinstance(base, Opaque) and base.tag == "series" and name == "array" and isinstance(base.payload, Opaque) and base.payload.tag == "intervals":
             return base.payload
         if isinstance(base, Opaque) and base.tag == "intervals":
